@@ -17,8 +17,11 @@ class RequestStreamRequester(StreamHandler, DefaultPublisherSubscription, Reques
         pass
 
     def subscribe(self, subscriber: Subscriber):
-        super().subscribe(subscriber)
+        self._subscriber = subscriber
+        # Queue the request before notifying the subscriber: a subscriber which calls request(n) or cancel()
+        # from on_subscribe must not get its REQUEST_N / CANCEL on the wire ahead of the REQUEST_STREAM frame.
         self._send_stream_request(self.payload)
+        subscriber.on_subscribe(self)
 
     def cancel(self):
         self.send_cancel()
